@@ -58,6 +58,7 @@ Check(e) ==
   ELSE IF ProjBad(e.again, c, "revalidated_") # "ok" THEN ProjBad(e.again, c, "revalidated_")
   ELSE IF ~e.sameobject THEN "validating_the_object_changed_it"
   ELSE IF \E i \in 1..Len(e.mutations) : ~e.mutations[i].rejected THEN "mutation_accepted"
+  ELSE IF ~e.independent_of_callers_arrays THEN "stored_array_is_a_view_of_the_callers_array"
   ELSE CheckScaled(e, c)
 
 Init == tid \in 1..Len(Traces) /\ l = 1 /\ verdict = "ok"
